@@ -54,6 +54,21 @@ refrain.txt
 copy.txt
 :
 
+left.txt
+right.txt
+:
+l_src.txt
+r_src.txt
+:
+mycat
+l_src.txt
+left.txt
+;
+mycat
+r_src.txt
+right.txt
+:
+
 song.txt
 :
 refrain.txt
@@ -85,6 +100,39 @@ album.txt
 :
 ";
 
+/*  a FakeSystem whose clock ticks at every mutation made through it */
+#[derive(Clone)]
+struct TickSystem { inner: FakeSystem, clock: std::sync::Arc<std::sync::atomic::AtomicU64>, local: u64 }
+impl TickSystem
+{
+    /*  one shared clock for all clones (FakeSystem clones each carry their own time) */
+    fn tick(&mut self) { let t = self.clock.fetch_add(1, std::sync::atomic::Ordering::SeqCst) + 1; self.inner.time_passes(t - self.local); self.local = t; }
+}
+impl std::fmt::Debug for TickSystem { fn fmt(&self, f: &mut std::fmt::Formatter<'_>) -> std::fmt::Result { write!(f, "TickSystem") } }
+impl System for TickSystem
+{
+    type File = crate::system::fake::FakeOpenFile;
+    fn open(&self, path: &str) -> Result<Self::File, crate::system::SystemError> { self.inner.open(path) }
+    fn create_file(&mut self, path: &str) -> Result<Self::File, crate::system::SystemError> { self.tick(); self.inner.create_file(path) }
+    fn create_dir(&mut self, path: &str) -> Result<(), crate::system::SystemError> { self.inner.create_dir(path) }
+    fn is_dir(&self, path: &str) -> bool { self.inner.is_dir(path) }
+    fn is_file(&self, path: &str) -> bool { self.inner.is_file(path) }
+    fn remove_file(&mut self, path: &str) -> Result<(), crate::system::SystemError> { self.inner.remove_file(path) }
+    fn remove_dir(&mut self, path: &str) -> Result<(), crate::system::SystemError> { self.inner.remove_dir(path) }
+    fn list_dir(&self, path: &str) -> Result<Vec<String>, crate::system::SystemError> { self.inner.list_dir(path) }
+    fn rename(&mut self, from: &str, to: &str) -> Result<(), crate::system::SystemError> { self.inner.rename(from, to) }
+    fn get_modified(&self, path: &str) -> Result<std::time::SystemTime, crate::system::SystemError> { self.inner.get_modified(path) }
+    fn is_executable(&self, path: &str) -> Result<bool, crate::system::SystemError> { self.inner.is_executable(path) }
+    fn set_is_executable(&mut self, path: &str, executable: bool) -> Result<(), crate::system::SystemError> { self.inner.set_is_executable(path, executable) }
+    fn execute_command(&mut self, command_script: crate::system::CommandScript) -> Vec<Result<crate::system::CommandLineOutput, crate::system::SystemError>>
+    {
+        /*  one tick per command line */
+        let mut out = vec![];
+        for line in command_script.lines.iter() { self.tick(); out.extend(self.inner.execute_command(crate::system::CommandScript { lines: vec![line.clone()] })); }
+        out
+    }
+}
+
 /*  records the status lines of a build, for the C20 oracle */
 struct RecordingPrinter { banners: Vec<(String, String)>, errors: Vec<String> }
 impl Printer for RecordingPrinter
@@ -94,17 +142,18 @@ impl Printer for RecordingPrinter
     fn error(&mut self, text: &str) { self.errors.push(text.to_string()); }
 }
 /*  (targets, first line of the command) of the five rules */
-const RULE_CMDS : [(&[&str], &str); 5] = [
+const RULE_CMDS : [(&[&str], &str); 6] = [
+    (&["left.txt", "right.txt"], "mycat l_src.txt left.txt"),
     (&["stanza.txt"], "mycat verse.txt stanza.txt"), (&["poem.txt"], "mycat stanza.txt refrain.txt poem.txt"), (&["aside.txt", "copy.txt"], "mycat note.txt aside.txt"),
     (&["song.txt"], "mycat refrain.txt verse.txt song.txt"), (&["album.txt"], "mycat song.txt note.txt album.txt")];
 
 #[derive(Clone, Copy, Debug, PartialEq)]
-enum Act { VerseA, VerseB, RefrainS, Build, BuildPoem, Clean, CleanStanza, TamperStanza, DeleteStanza, DropCacheEntryOfStanza, HiddenGone, HiddenBack, NoteLikeVerseA, CleanAside, SwapVerseRefrain, DropSongRules, DeleteAside, NoteP, NoteN, StashStanza, UnstashStanza }
+enum Act { VerseA, VerseB, RefrainS, Build, BuildPoem, Clean, CleanStanza, TamperStanza, DeleteStanza, DropCacheEntryOfStanza, HiddenGone, HiddenBack, NoteLikeVerseA, CleanAside, SwapVerseRefrain, DropSongRules, DeleteAside, NoteP, NoteN, StashStanza, UnstashStanza, SwapLeftRight, DropWholeCache }
 const ACTS : [Act; 12] = [Act::VerseA, Act::VerseB, Act::RefrainS, Act::Build, Act::BuildPoem, Act::Clean, Act::CleanStanza, Act::TamperStanza, Act::DeleteStanza, Act::DropCacheEntryOfStanza, Act::HiddenGone, Act::HiddenBack];
 
 fn params(goal: Option<&str>) -> BuildParams { BuildParams::from_all(".ruler".to_string(), vec!["build.rules".to_string()], None, goal.map(|s| s.to_string())) }
 fn read(system: &FakeSystem, p: &str) -> Option<String> { if system.is_file(p) { read_file_to_string(system, p).ok() } else { None } }
-const TARGETS : [&str; 6] = ["stanza.txt", "poem.txt", "aside.txt", "copy.txt", "song.txt", "album.txt"];
+const TARGETS : [&str; 8] = ["stanza.txt", "poem.txt", "aside.txt", "copy.txt", "song.txt", "album.txt", "left.txt", "right.txt"];
 
 /*  (content, mtime, executable bit) of a file, for the C09 oracle */
 fn stat(system: &FakeSystem, p: &str) -> Option<(String, std::time::SystemTime, bool)>
@@ -112,9 +161,9 @@ fn stat(system: &FakeSystem, p: &str) -> Option<(String, std::time::SystemTime, 
     if !system.is_file(p) { return None; }
     Some((read_file_to_string(system, p).ok()?, system.get_modified(p).ok()?, system.is_executable(p).ok()?))
 }
-const UNTOUCHABLE : [&str; 8] = ["verse.txt", "refrain.txt", "note.txt", "hidden.txt", "build.rules", "undeclared.txt", "stanza.txt.tmp", "poem.txt.tmp"];
-const OUT_OF_POEM_SCOPE : [&str; 4] = ["aside.txt", "copy.txt", "song.txt", "album.txt"];
-const OUT_OF_STANZA_SCOPE : [&str; 5] = ["poem.txt", "aside.txt", "copy.txt", "song.txt", "album.txt"];
+const UNTOUCHABLE : [&str; 10] = ["verse.txt", "refrain.txt", "note.txt", "hidden.txt", "build.rules", "undeclared.txt", "stanza.txt.tmp", "poem.txt.tmp", "l_src.txt", "r_src.txt"];
+const OUT_OF_POEM_SCOPE : [&str; 6] = ["aside.txt", "copy.txt", "song.txt", "album.txt", "left.txt", "right.txt"];
+const OUT_OF_STANZA_SCOPE : [&str; 7] = ["poem.txt", "aside.txt", "copy.txt", "song.txt", "album.txt", "left.txt", "right.txt"];
 /*  contents held at target paths or in the cache */
 fn held(system: &FakeSystem) -> BTreeSet<String>
 {
@@ -132,7 +181,7 @@ fn cache_ok(system: &FakeSystem) -> Option<String>
             if let Some(c) = read(system, &n)
             {
                 let want = format!(".ruler/cache/{}", TicketFactory::from_str(&c).result().human_readable());
-                if n != want && !n.ends_with(&TicketFactory::from_str(&c).result().human_readable()) { return Some(format!("cache entry {} holds content hashing to another name", n)); }
+                if n != want && !n.ends_with(&TicketFactory::from_str(&c).result().human_readable()) { return Some(format!("cache entry {} holds content hashing to another name: {:?}", n, c)); }
             }
         }
     }
@@ -141,7 +190,9 @@ fn cache_ok(system: &FakeSystem) -> Option<String>
 
 struct Outcome { finals: Vec<Option<String>>, verdicts: Vec<bool>, complaints: Vec<(String, String)> }
 
-fn run_history(h: &Vec<Act>, drop_table: bool) -> Outcome
+fn run_history(h: &Vec<Act>, drop_table: bool) -> Outcome { run_history_clock(h, drop_table, false) }
+/*  fine: the clock ticks at every mutation ruler makes (every write gets its own modification time) instead of once per invocation */
+fn run_history_clock(h: &Vec<Act>, drop_table: bool, fine: bool) -> Outcome
 {
     let mut system = FakeSystem::new(10);
     write_str_to_file(&mut system, "build.rules", RULES).unwrap();
@@ -149,6 +200,8 @@ fn run_history(h: &Vec<Act>, drop_table: bool) -> Outcome
     write_str_to_file(&mut system, "refrain.txt", "La la la.\n").unwrap();
     write_str_to_file(&mut system, "note.txt", "N.B.\n").unwrap();
     write_str_to_file(&mut system, "hidden.txt", "(hidden)\n").unwrap();
+    write_str_to_file(&mut system, "l_src.txt", "Left.\n").unwrap();
+    write_str_to_file(&mut system, "r_src.txt", "Right.\n").unwrap();
     write_str_to_file(&mut system, "undeclared.txt", "not mentioned in any rule\n").unwrap();
     /*  undeclared files next to targets, named like temporaries */
     write_str_to_file(&mut system, "stanza.txt.tmp", "my notes on the stanza\n").unwrap();
@@ -159,9 +212,10 @@ fn run_history(h: &Vec<Act>, drop_table: bool) -> Outcome
     let mut last_was_ok_build = false; let mut last_was_clean_after_ok_build = false;
     let mut reduced = false;      /*  song.txt / album.txt no longer have rules */
     let mut seen_ok : BTreeSet<(String, String, String)> = BTreeSet::new();      /*  source states built successfully since the last disturbance */
+    let mut now : u64 = 10;      /*  the time of `system` (FakeSystem::new(10)), tracked here because clones carry their own copy */
     for a in h.iter()
     {
-        system.time_passes(1);
+        system.time_passes(1); now += 1;
         let before = held(&system);
         let log_before = system.get_command_log().len();
         let stats_before : Vec<(String, Option<(String, std::time::SystemTime, bool)>)> =
@@ -173,6 +227,13 @@ fn run_history(h: &Vec<Act>, drop_table: bool) -> Outcome
             Act::VerseB => { write_str_to_file(&mut system, "verse.txt", "Violets are blue.\n").unwrap(); },
             Act::RefrainS => { write_str_to_file(&mut system, "refrain.txt", "Sha la la.\n").unwrap(); },
             Act::NoteLikeVerseA => { write_str_to_file(&mut system, "note.txt", "Roses are red.\n").unwrap(); },
+            /*  the two sources of the two-target rule left/right trade contents: its targets have to trade contents too */
+            Act::SwapLeftRight =>
+            {
+                let (l, r) = (read(&system, "l_src.txt").unwrap(), read(&system, "r_src.txt").unwrap());
+                write_str_to_file(&mut system, "l_src.txt", &r).unwrap(); write_str_to_file(&mut system, "r_src.txt", &l).unwrap();
+            },
+            Act::DropWholeCache => { if let Ok(names) = system.list_dir(".ruler/cache") { for n in names { if system.is_file(&n) { system.remove_file(&n).unwrap(); } } } },
             Act::DeleteAside => { if system.is_file("aside.txt") { system.remove_file("aside.txt").unwrap(); } },
             Act::NoteP => { write_str_to_file(&mut system, "note.txt", "P.S.\n").unwrap(); },
             Act::NoteN => { write_str_to_file(&mut system, "note.txt", "N.B.\n").unwrap(); },
@@ -208,7 +269,9 @@ fn run_history(h: &Vec<Act>, drop_table: bool) -> Outcome
                 let stanza_untouched = stanza_settled.is_some() && stanza_settled == read(&system, "verse.txt") && read(&system, "stanza.txt") == stanza_settled;
                 let target_stats_before : Vec<Option<(String, std::time::SystemTime, bool)>> = TARGETS.iter().map(|p| stat(&system, p)).collect();
                 let mut printer = RecordingPrinter { banners: vec![], errors: vec![] };
-                let result = build(system.clone(), &mut printer, params(goal));
+                let clock = std::sync::Arc::new(std::sync::atomic::AtomicU64::new(now));
+                let result = if fine { build(TickSystem { inner: system.clone(), clock: clock.clone(), local: now }, &mut printer, params(goal)) } else { build(system.clone(), &mut printer, params(goal)) };
+                { let t = clock.load(std::sync::atomic::Ordering::SeqCst); system.time_passes(t - now); now = t; }
                 let ok = result.is_ok();
                 verdicts.push(ok);
                 let new_log : Vec<String> = system.get_command_log()[log_before..].to_vec();
@@ -285,17 +348,17 @@ fn run_history(h: &Vec<Act>, drop_table: bool) -> Outcome
                 let distinct =
                 {
                     let (v, r, n) = (read(&system, "verse.txt").unwrap(), read(&system, "refrain.txt").unwrap(), read(&system, "note.txt").unwrap());
-                    let mut all = vec![v.clone(), format!("{}{}", v, r), n.clone(), format!("{}{}", n, r)];
+                    let mut all = vec![v.clone(), format!("{}{}", v, r), n.clone(), format!("{}{}", n, r), read(&system, "l_src.txt").unwrap(), read(&system, "r_src.txt").unwrap()];
                     if !reduced { all.push(format!("{}{}", r, v)); all.push(format!("{}{}{}", r, v, n)); }
                     let k = all.len(); all.sort(); all.dedup(); all.len() == k
                 };
-                let state = (read(&system, "verse.txt").unwrap(), read(&system, "refrain.txt").unwrap(), read(&system, "note.txt").unwrap());
+                let state = (read(&system, "verse.txt").unwrap(), read(&system, "refrain.txt").unwrap(), format!("{}|{}|{}", read(&system, "note.txt").unwrap(), read(&system, "l_src.txt").unwrap(), read(&system, "r_src.txt").unwrap()));
                 if ok
                 {
                     /*  C01: from-scratch outputs of the current sources */
                     let verse = read(&system, "verse.txt").unwrap(); let refrain = read(&system, "refrain.txt").unwrap(); let note = read(&system, "note.txt").unwrap();
                     let mut expect = vec![("stanza.txt", verse.clone()), ("poem.txt", format!("{}{}", verse, refrain))];
-                    if goal.is_none() { expect.push(("aside.txt", note.clone())); expect.push(("copy.txt", format!("{}{}", note, refrain))); if !reduced { expect.push(("song.txt", format!("{}{}", refrain, verse))); expect.push(("album.txt", format!("{}{}{}", refrain, verse, note))); } }
+                    if goal.is_none() { expect.push(("left.txt", read(&system, "l_src.txt").unwrap())); expect.push(("right.txt", read(&system, "r_src.txt").unwrap())); expect.push(("aside.txt", note.clone())); expect.push(("copy.txt", format!("{}{}", note, refrain))); if !reduced { expect.push(("song.txt", format!("{}{}", refrain, verse))); expect.push(("album.txt", format!("{}{}{}", refrain, verse, note))); } }
                     for (p, want) in expect.iter()
                     {
                         if read(&system, p).as_ref() != Some(want) { complaints.push(("B-build-C01".to_string(), format!("after a successful build {} holds {:?}, a from-scratch build gives {:?}", p, read(&system, p), want))); }
@@ -318,13 +381,15 @@ fn run_history(h: &Vec<Act>, drop_table: bool) -> Outcome
             {
                 is_ruler = true;
                 let goal = if *a == Act::CleanStanza { Some("stanza.txt".to_string()) } else if *a == Act::CleanAside { Some("aside.txt".to_string()) } else { None };
-                let cleaned = clean(system.clone(), ".ruler", vec!["build.rules".to_string()], goal);
+                let clock = std::sync::Arc::new(std::sync::atomic::AtomicU64::new(now));
+                let cleaned = if fine { clean(TickSystem { inner: system.clone(), clock: clock.clone(), local: now }, ".ruler", vec!["build.rules".to_string()], goal) } else { clean(system.clone(), ".ruler", vec!["build.rules".to_string()], goal) };
+                { let t = clock.load(std::sync::atomic::Ordering::SeqCst); system.time_passes(t - now); now = t; }
                 /*  C10: after a clean that reported success none of the in-scope target files exists in the workspace
                     (that their contents are in the cache is the C08 oracle; that the next build brings them back without
                     running a command are the C01 / C02 oracles) */
                 if cleaned.is_ok()
                 {
-                    let in_scope : Vec<&str> = match a { Act::CleanStanza => vec!["stanza.txt"], Act::CleanAside => vec!["aside.txt", "copy.txt"], _ => if reduced { vec!["stanza.txt", "poem.txt", "aside.txt", "copy.txt"] } else { vec!["stanza.txt", "poem.txt", "aside.txt", "copy.txt", "song.txt", "album.txt"] } };
+                    let in_scope : Vec<&str> = match a { Act::CleanStanza => vec!["stanza.txt"], Act::CleanAside => vec!["aside.txt", "copy.txt"], _ => if reduced { vec!["stanza.txt", "poem.txt", "aside.txt", "copy.txt", "left.txt", "right.txt"] } else { vec!["stanza.txt", "poem.txt", "aside.txt", "copy.txt", "song.txt", "album.txt", "left.txt", "right.txt"] } };
                     for p in in_scope.iter() { if system.is_file(p) { complaints.push(("B-build-C10".to_string(), format!("{} is still in the workspace after a clean that reported success", p))); } }
                 }
             },
@@ -348,7 +413,7 @@ fn run_history(h: &Vec<Act>, drop_table: bool) -> Outcome
         }
         match a
         {
-            Act::TamperStanza | Act::DeleteStanza | Act::DeleteAside | Act::DropCacheEntryOfStanza | Act::HiddenGone | Act::HiddenBack | Act::DropSongRules | Act::StashStanza | Act::UnstashStanza | Act::NoteLikeVerseA => seen_ok.clear(),
+            Act::TamperStanza | Act::DeleteStanza | Act::DeleteAside | Act::DropCacheEntryOfStanza | Act::HiddenGone | Act::HiddenBack | Act::DropSongRules | Act::StashStanza | Act::UnstashStanza | Act::NoteLikeVerseA | Act::DropWholeCache => seen_ok.clear(),
             _ => {},
         }
         match a
@@ -429,6 +494,10 @@ fn verif_build_long_histories()
         vec![Build, StashStanza, VerseB, Build, UnstashStanza, Build],
         vec![Build, DeleteAside, Clean],
         vec![Build, DeleteAside, Clean, Build],
+        vec![Build, SwapLeftRight, Build, DropWholeCache, SwapLeftRight, Build],
+        vec![Build, SwapLeftRight, Build, SwapLeftRight, Build],
+        vec![Build, VerseB, NoteLikeVerseA, Build, CleanAside, DeleteStanza, VerseA, Build],
+        vec![Build, VerseB, NoteLikeVerseA, Build, CleanAside, CleanStanza, VerseA, Build],
     ];
     let names = ["B-build-C01", "B-build-C02", "B-build-C04", "B-build-C07", "B-build-C08", "B-build-C09", "B-build-C10", "B-build-C18", "B-build-C20"];
     let mut bad = vec![0u64; names.len()];
@@ -438,6 +507,9 @@ fn verif_build_long_histories()
         let mut all = o1.complaints.clone();
         if o1.finals != o2.finals || o1.verdicts != o2.verdicts { all.push(("B-build-C18".to_string(), format!("with table: {:?} {:?}; table erased: {:?} {:?}", o1.verdicts, o1.finals, o2.verdicts, o2.finals))); }
         for (name, what) in all.iter() { let k = names.iter().position(|n| n == name).unwrap(); bad[k] += 1; println!("WITNESS {}-long :: {:?} :: {}", name, h, what); }
+        /*  the same history with a fine clock (every write has its own modification time) */
+        let o3 = run_history_clock(h, false, true);
+        for (name, what) in o3.complaints.iter() { let k = names.iter().position(|n| n == name).unwrap(); bad[k] += 1; println!("WITNESS {}-long :: {:?} (fine clock) :: {}", name, h, what); }
     }
     for (k, n) in names.iter().enumerate() { println!("SUMMARY {}-long cases={} disagreements={}", n, hs.len(), bad[k]); }
 }
